@@ -34,6 +34,7 @@ type hkState struct {
 	fnHit    bool
 	root     *fakeInner
 	innerBefore int // inner-client events before the call under test (path derivation)
+	ctxDone     bool // the call under test gets an already cancelled context
 	cancels  int
 }
 
@@ -347,6 +348,12 @@ func hkCall(s *hkState, cur any, m string, argc int) (ret string, has bool) {
 	tok := new(int)
 	s.ctxTok = tok
 	ctx := context.WithValue(context.Background(), hkCtxKey{}, tok)
+	if s.ctxDone {
+		// an already cancelled context: the wrapper must still hand the request to the hook
+		var cancel context.CancelFunc
+		ctx, cancel = context.WithCancel(ctx)
+		cancel()
+	}
 	b := cmds.NewBuilder(cmds.NoSlot)
 	s.cmd = b.Get().Key("k").Build()
 	s.multi = nil
@@ -524,6 +531,11 @@ func hookOp(c *Ctx, line string) {
 	}
 	// hook <method> <argc> <path> <fwd>   |   !hook <method> <argc> <path>
 	// (older spelling: call <path> <method> <fwd> | !call <path> <method>, three commands)
+	ctxDone := false
+	if n := len(w); n > 0 && strings.HasPrefix(w[n-1], "ctx=") {
+		ctxDone = w[n-1] == "ctx=done"
+		w = w[:n-1]
+	}
 	var m, pw string
 	argc, fwd, oracle := 3, false, false
 	switch {
@@ -546,7 +558,7 @@ func hookOp(c *Ctx, line string) {
 		path = strings.Split(pw, ",")
 	}
 	ans := func() (ans string) {
-		s := &hkState{fwd: fwd}
+		s := &hkState{fwd: fwd, ctxDone: ctxDone}
 		defer func() {
 			if r := recover(); r != nil {
 				ans = "log=" + logStr(s.evs) + " ret=panic"
@@ -604,13 +616,22 @@ func hookOp(c *Ctx, line string) {
 	c.Hit(w[0] + ":" + key)
 	c.Emit(line, ans, len(path) > 0 && hkEntry[m] && ans != "nopath" && ans != "nomethod")
 	if w[0] == "!hook" && hkEntry[m] && ans != "nopath" && ans != "nomethod" && ans != "hooks="+m+":1 inner=0 ret=hook" {
-		c.Fail("hook:misrouted:"+m, line, fmt.Sprintf("%s with %d command(s) on the client reached by path %q: %s; the property demands hooks=%s:1 inner=0 ret=hook (the same-named hook method exactly once with the caller's arguments, nothing else, its result returned)", m, argc, pw, ans, m))
+		key := "hook:misrouted:" + m
+		if ctxDone {
+			key = "hook:not-called:done-context:" + m
+		}
+		c.Fail(key, line, fmt.Sprintf("%s with %d command(s) on the client reached by path %q: %s; the property demands hooks=%s:1 inner=0 ret=hook (the same-named hook method exactly once with the caller's arguments, nothing else, its result returned)", m, argc, pw, ans, m))
 	}
 }
 
 // stackOp: stacked hooks.  stack <depth> <method> <argc> <path>  |  !stack <depth> <method> <argc> <path>
 func stackOp(c *Ctx, line string) {
 	w := strings.Fields(line)
+	ctxDone := false
+	if n := len(w); n > 0 && strings.HasPrefix(w[n-1], "ctx=") {
+		ctxDone = w[n-1] == "ctx=done"
+		w = w[:n-1]
+	}
 	if len(w) != 5 {
 		c.Emit(line, "bad-op", false)
 		return
@@ -626,7 +647,7 @@ func stackOp(c *Ctx, line string) {
 	oracle := w[0] == "!stack"
 	expected := ""
 	ans := func() (ans string) {
-		s := &hkState{}
+		s := &hkState{ctxDone: ctxDone}
 		defer func() {
 			if r := recover(); r != nil {
 				ans = "log=" + logStr(s.evs) + " ret=panic"
@@ -675,7 +696,11 @@ func stackOp(c *Ctx, line string) {
 	c.Hit(fmt.Sprintf("%s:depth%d", w[0], depth))
 	c.Emit(line, ans, depth > 1 && hkEntry[m] && ans != "nopath" && ans != "nomethod")
 	if oracle && hkEntry[m] && expected != "" && ans != expected {
-		c.Fail("hook:level-skipped:"+pw, line, fmt.Sprintf("%d stacked hooks, %s with %d command(s) on the client reached by path %q: %s; the property demands %s (every level's same-named hook exactly once, outer to inner)", depth, m, argc, pw, ans, expected))
+		key := "hook:level-skipped:" + pw
+		if ctxDone {
+			key = "hook:not-called:done-context:" + m
+		}
+		c.Fail(key, line, fmt.Sprintf("%d stacked hooks, %s with %d command(s) on the client reached by path %q: %s; the property demands %s (every level's same-named hook exactly once, outer to inner)", depth, m, argc, pw, ans, expected))
 	}
 }
 
@@ -718,6 +743,10 @@ func runHook(c *Ctx) {
 				hookOp(c, fmt.Sprintf("hook %s %d %s 1", m, n, pstr(p)))
 				if hkEntry[m] {
 					hookOp(c, fmt.Sprintf("!hook %s %d %s", m, n, pstr(p)))
+					// the same with an already cancelled context
+					hookOp(c, fmt.Sprintf("hook %s %d %s 0 ctx=done", m, n, pstr(p)))
+					hookOp(c, fmt.Sprintf("hook %s %d %s 1 ctx=done", m, n, pstr(p)))
+					hookOp(c, fmt.Sprintf("!hook %s %d %s ctx=done", m, n, pstr(p)))
 				}
 			}
 		}
@@ -737,6 +766,8 @@ func runHook(c *Ctx) {
 					hookOp(c, fmt.Sprintf("stack %d %s %d %s", depth, m, n, pstr(p)))
 					if hkEntry[m] {
 						hookOp(c, fmt.Sprintf("!stack %d %s %d %s", depth, m, n, pstr(p)))
+						hookOp(c, fmt.Sprintf("stack %d %s %d %s ctx=done", depth, m, n, pstr(p)))
+						hookOp(c, fmt.Sprintf("!stack %d %s %d %s ctx=done", depth, m, n, pstr(p)))
 					}
 				}
 			}
@@ -762,9 +793,13 @@ func runHook(c *Ctx) {
 		if c.Rng.IntN(6) == 0 {
 			n = 1 + c.Rng.IntN(40)
 		}
-		hookOp(c, fmt.Sprintf("hook %s %d %s %d", m, n, pstr(p), c.Rng.IntN(2)))
+		cx := ""
+		if hkEntry[m] && c.Rng.IntN(2) == 0 {
+			cx = " ctx=done"
+		}
+		hookOp(c, fmt.Sprintf("hook %s %d %s %d%s", m, n, pstr(p), c.Rng.IntN(2), cx))
 		if hkEntry[m] {
-			hookOp(c, fmt.Sprintf("!hook %s %d %s", m, n, pstr(p)))
+			hookOp(c, fmt.Sprintf("!hook %s %d %s%s", m, n, pstr(p), cx))
 		}
 		depth := 2 + c.Rng.IntN(4)
 		if m != "Dedicated" && m != "Dedicate" && m != "Nodes" {
@@ -778,7 +813,7 @@ func runHook(c *Ctx) {
 
 func init() {
 	suites["hook"] = suite{
-		rule: "every derivation path over {nodes,dedicate,dedicated} up to length 3 (exhaustive) and random paths up to length 10, times every method of rueidis.Client/DedicatedClient (DoMulti/DoMultiCache/DoMultiStream with 0, 1, 2, 3 and 17 commands), with a non-forwarding and a forwarding counting hook on a mock inner client; the same with 2 and 3 (random: up to 5) STACKED forwarding hooks, judged per hook level; non-trivial = entry point called on a derived (non-root) client, distinct op",
+		rule: "every derivation path over {nodes,dedicate,dedicated} up to length 3 (exhaustive) and random paths up to length 10, times every method of rueidis.Client/DedicatedClient (DoMulti/DoMultiCache/DoMultiStream with 0, 1, 2, 3 and 17 commands), with a non-forwarding and a forwarding counting hook on a mock inner client; the same with 2 and 3 (random: up to 5) STACKED forwarding hooks, judged per hook level; every entry point both with a live and with an already cancelled context; non-trivial = entry point called on a derived (non-root) client, distinct op",
 		run:  runHook,
 		replay: func(c *Ctx, lines []string) {
 			for _, l := range lines {
